@@ -125,6 +125,12 @@ func positive(v ssa.Value, depth int) bool {
 	if isDecodeWidth(v) {
 		return true
 	}
+	// i + 1 with i the answer of a library search that the loop leaves when it is negative (`if i < 0 { break }`)
+	if bo, ok := v.(*ssa.BinOp); ok && bo.Op == token.ADD {
+		if (positive(bo.X, depth+1) && nonNegativeGuarded(bo.Y)) || (positive(bo.Y, depth+1) && nonNegativeGuarded(bo.X)) {
+			return true
+		}
+	}
 	if p, ok := v.(*ssa.Phi); ok {
 		for _, e := range p.Edges {
 			if !positive(e, depth+1) {
@@ -148,6 +154,35 @@ func strictlyLess(v ssa.Value, phi *ssa.Phi) bool {
 	if bo.Op == token.ADD && bo.X == ssa.Value(phi) {
 		if c, ok := constInt(bo.Y); ok {
 			return c < 0
+		}
+	}
+	return false
+}
+
+// nonNegativeGuarded: nonNegative, or the result of a standard search (−1 or an index) that is compared with 0 by a
+// branch of the function (the found side goes on, the other leaves).
+func nonNegativeGuarded(v ssa.Value) bool {
+	if nonNegative(v) {
+		return true
+	}
+	call, ok := v.(*ssa.Call)
+	if !ok || call.Call.StaticCallee() == nil {
+		return false
+	}
+	if _, isSearch := lbSearchFns[call.Call.StaticCallee().String()]; !isSearch {
+		return false
+	}
+	for _, u := range referrers(call) {
+		bo, ok := u.(*ssa.BinOp)
+		if !ok || bo.X != ssa.Value(call) {
+			continue
+		}
+		if k, isC := constInt(bo.Y); isC && ((k == 0 && (bo.Op == token.LSS || bo.Op == token.GEQ)) || (k == -1 && (bo.Op == token.EQL || bo.Op == token.NEQ || bo.Op == token.GTR || bo.Op == token.LEQ))) {
+			for _, uu := range referrers(bo) {
+				if _, isIf := uu.(*ssa.If); isIf {
+					return true
+				}
+			}
 		}
 	}
 	return false
@@ -451,6 +486,8 @@ func (w *World) phiControlsExit(phi *ssa.Phi, l *natLoop) bool {
 						return true
 					}
 				}
+			case *ssa.Slice:
+				return (x.Low != nil && usesPhi(x.Low, depth+1)) || (x.High != nil && usesPhi(x.High, depth+1)) || usesPhi(x.X, depth+1)
 			case *ssa.Phi:
 				for _, e := range x.Edges {
 					if derived[e] {
